@@ -118,8 +118,17 @@ def history_of(streams, pads):
         k = 1 if n == 0 else 2
         if n:
             h.append(op("init", 2))
-        for u, v in s["records"]:
-            h.append(op("append", k, u=u, v=v))
+        recs = s["records"]; a = 0
+        while a < len(recs):
+            b = a
+            while b < len(recs) and recs[b] == recs[a]:
+                b += 1
+            if b - a >= 8:           # a long run of equal Records: the macro call appendn
+                h.append(dict(op("appendn", k, u=recs[a][0], v=recs[a][1]), n=b - a))
+            else:
+                for u, v in recs[a:b]:
+                    h.append(op("append", k, u=u, v=v))
+            a = b
         h.append(op("flags", k, f=dict(set=True, version=0, check=s["check"], bsk=True, bs=limbs(s["bs"]))))
         h.append(op("padding", k, u=pads[n]))
         if n:
